@@ -3,10 +3,10 @@
    fixes/F5.patch (oversize frame refused before it is buffered) and fixes/F6.patch (FIN data frame
    inside a fragmented message refused). [lossy] stands for String::from_utf8_lossy. *)
 From Coq Require Import String.
-From AV Require Import Lib.Base Lib.V Gen.Consts Ws.Mask Ws.MaskProofs Ws.MaskFast Ws.Frame Ws.FrameProofs
+From AV Require Import Lib.Base Lib.V Gen.Consts Gen.WsTables Ws.Mask Ws.MaskProofs Ws.MaskFast Ws.Frame Ws.FrameProofs
   Ws.Codec Ws.ParseProofs Ws.Stream Ws.StreamProofs Ws.MoreProofs Ws.Handshake Ws.HandshakeProofs
   Ws.FrameSpec Ws.SpecProofs Ws.HdrProofs Ws.RoundProofs Ws.DeliverProofs Ws.RoundTrip Ws.OversizeProofs Ws.RoundTripSeq Ws.ReserveProofs
-  Ws.Sha1 Ws.Base64 Ws.HashKey Ws.HashKeyProofs.
+  Ws.Sha1 Ws.Base64 Ws.HashKey Ws.HashKeyProofs Ws.TablesTie.
 Open Scope N_scope.
 
 (* ---------------- masking ---------------- *)
@@ -380,6 +380,81 @@ Theorem C14_handshake_total : forall (method : bytes) (h : headers),
   | None => exists a, handshake method h = Val (HsOk a)
   end.
 Proof. exact handshake_total. Qed.
+
+(* ---------------- translator tie: the model's literals are the ones in the Rust sources -------- *)
+(* Gen/WsTables.v is regenerated from actix-http/src/ws/{frame,proto,mod}.rs on every run
+   (tools/extract_consts.py, extract_ws_tables). [*_gen] are the model functions with the generated
+   constants in place of their literals (Ws/TablesTie.v). A changed literal in the source breaks
+   one of these obligations (or, when a pattern no longer matches, their compilation). *)
+
+Theorem C14_tie_parse_metadata : forall src server,
+  parse_metadata src server = parse_metadata_gen src server.
+Proof. exact parse_metadata_tie. Qed.
+
+Theorem C14_tie_write_message : forall dst payload op fin mask key,
+  write_message dst payload op fin mask key = write_message_gen dst payload op fin mask key.
+Proof. exact write_message_tie. Qed.
+
+(* the control-frame limit of `parse` (both arms) and of the strictness spec is the source's *)
+Theorem C14_tie_control_limit : forall src server max_size idx fin op len mask,
+  parse_metadata src server = Val (Ok (Some (idx, fin, op, len, mask))) ->
+  checked_add idx len = Some (idx + len) -> (lenN src <? idx + len) = false ->
+  (max_size <? len) = false -> (len =? 0) = false ->
+  parse src server max_size =
+  rbind (advance src idx) (fun src1 => rbind (split_to src1 len) (fun ds =>
+    let '(data, src2) := ds in
+    match control_arm_gen op len with
+    | Some (Some e) => Val (PErr e src2)
+    | Some None => Val (PFrame true OpClose None src2)
+    | None => Val (PFrame fin op (Some (match mask with Some mk => apply_mask data mk | None => data end)) src2)
+    end)).
+Proof. exact parse_control_limit_tie. Qed.
+
+(* writer and parser literals agree with each other; header sizes = start + extension bytes; the
+   spec's minimal length form (C14_roundtrip_length_boundaries) switches at the writer's limits *)
+Theorem C14_tie_literals_consistent :
+  (WS_W_FIN_BIT = WS_P_FIN_BIT /\ WS_W_MASK_BIT = WS_P_MASK_BIT /\ WS_W_MASK_BYTES = WS_P_MASK_BYTES /\
+   WS_W_LEN16_MARKER = WS_P_LEN16_MARKER /\ WS_W_LEN64_MARKER = WS_P_LEN64_MARKER /\
+   WS_W_LEN7_LIMIT = WS_P_LEN16_MARKER /\ WS_W_LEN16_MAX + 1 = 256 ^ WS_P_EXT16_BYTES /\
+   WS_P_LEN7_MASK = WS_P_MASK_BIT - 1 /\ WS_P_LEN64_MARKER = WS_P_LEN7_MASK) /\
+  (WS_P_HDR16 = WS_P_HDR_MIN + WS_P_EXT16_BYTES /\ WS_P_HDR64 = WS_P_HDR_MIN + WS_P_EXT64_BYTES) /\
+  (forall len, minimal_form len =
+               if len <? WS_W_LEN7_LIMIT then L7 else if len <=? WS_W_LEN16_MAX then L16 else L64) /\
+  (forall server open max_size h,
+     frame_legal server open max_size h =
+     Bool.eqb (is_some (h_key h)) server && opcode_known (h_op h) &&
+     (if is_control (h_op h) then h_fin h && (h_len h <=? WS_CONTROL_MAX)
+      else if h_op h =? 0 then open else negb open) && (h_len h <=? max_size)).
+Proof.
+  split; [exact writer_parser_literals_agree|]. split; [exact header_sizes_tie|].
+  split; [exact minimal_form_tie|exact frame_legal_limit_tie].
+Qed.
+
+(* impl From<u8> for OpCode / From<OpCode> for u8 are the model's two conversions, and the opcodes
+   the strictness spec calls known are the table's keys *)
+Theorem C14_tie_opcode_tables :
+  (forall b, b < 256 ->
+     opcode_name (opcode_of_u8 b) = lookup_n b WS_OPCODE_FROM_U8 WS_OPCODE_FROM_U8_DEFAULT) /\
+  (forall o, lookup_s (opcode_name o) WS_OPCODE_TO_U8 = Some (u8_of_opcode o)) /\
+  (forall op, op < 16 -> opcode_known op = existsb (fun kv => op =? fst kv) WS_OPCODE_FROM_U8).
+Proof. split; [exact opcode_of_u8_tie|]. split; [exact u8_of_opcode_tie|exact opcode_known_tie]. Qed.
+
+(* From<u16> for CloseCode followed by From<CloseCode> for u16 is the identity on every code: the
+   model may keep the close code as its number *)
+Theorem C14_tie_close_codes : forall code, close_roundtrip code = code.
+Proof. exact close_code_tie. Qed.
+
+(* the versions verify_handshake accepts, the GUID and the accept-key length of hash_key *)
+Theorem C14_tie_handshake :
+  (forall method h, verify_handshake method h = verify_handshake_gen method h) /\
+  ws_guid = WS_GUID /\ (forall key, hash_key key = hash_key_gen key).
+Proof. split; [exact verify_handshake_tie|]. split; [exact guid_tie|exact hash_key_tie]. Qed.
+
+(* RFC 6455 section 1.3 sample with the GUID read from proto.rs *)
+Example C14_rfc6455_accept_key_source_guid :
+  hash_key_gen (hx "6447686c49484e68625842735a5342756232356a5a513d3d") =
+  Val (hx "733370504c4d426954786151396b59477a7a685a52624b2b784f6f3d").
+Proof. vm_compute. reflexivity. Qed.
 
 (* the default max_size of Codec::new() is the constant in the sources *)
 Example C14_default_max_size : c_max codec_new = WS_DEFAULT_MAX_SIZE.
